@@ -3,3 +3,6 @@ import FuraxProofs.Lemmas.OpEq
 import FuraxProofs.Lemmas.Nary
 import FuraxProofs.Props.C01
 import FuraxProofs.Props.C07
+import FuraxProofs.Lemmas.ArithSound
+import FuraxProofs.Lemmas.Tables
+import FuraxProofs.Props.C02
